@@ -702,6 +702,44 @@ theorem Keep.calcAdd {r : Nat} (sys : Sys) (n : Nat) {x : Id} (hx : x.reg = r) (
   refine Keep.bind (Keep.ofPeriod _ fun _ _ => trivial) fun subs _ => ?_
   exact Keep.sumCalc sys n hx v subs none
 
+theorem Keep.routePop {r : Nat} {x : Id} (hx : x.reg = r) (rt : Route) (ent : Nat) :
+    Keep r (routePop x rt ent) (fun pid => pid.reg = r) := by
+  unfold Heap.routePop
+  refine Keep.bind (Keep.rdSim hx) fun so hso => ?_
+  cases rt with
+  | persons => exact Keep.pure _ hso.1
+  | getPopulation => exact Keep.ofOption _ _ fun a ha => hso.2.1 _ (alGet_mem ha)
+  | populations => exact Keep.ofOption _ _ fun a ha => hso.2.1 _ (alGet_mem ha)
+  | shortcut => exact Keep.ofOption _ _ fun a ha => hso.2.1 _ (alGet_mem ha)
+
+theorem Keep.calcThrough {r : Nat} (sys : Sys) (n : Nat) {x : Id} (hx : x.reg = r) (rt : Route) (ent : Nat) (v : Var)
+    (p : Period) : Keep r (calcThrough sys n x rt ent v p) (fun _ => True) := by
+  unfold Heap.calcThrough
+  refine Keep.bind (Keep.routePop hx rt ent) fun pid hpid => ?_
+  refine Keep.bind (Keep.rdPop hpid) fun po hpo => ?_
+  refine Keep.bind (Keep.varDecl sys v) fun decl _ => ?_
+  exact Keep.ite (fun _ => Keep.fail _) fun _ => Keep.calcF sys n _ v p hpo.1
+
+theorem Keep.popGetHolder {r : Nat} (sys : Sys) {pid : Id} (hp : pid.reg = r) (v : Var) :
+    Keep r (popGetHolder sys r pid v) (fun y => y.1.reg = r ∧ InReg r (.holder y.2)) := by
+  unfold Heap.popGetHolder
+  refine Keep.bind (Keep.varDecl sys v) fun decl _ => ?_
+  refine Keep.bind (Keep.rdPop hp) fun po hpo => ?_
+  refine Keep.ite (fun _ => Keep.fail _) fun _ => ?_
+  cases hh : alGet po.holders v with
+  | none => exact Keep.createHolder sys hp v
+  | some hid =>
+    have hhid : hid.reg = r := hpo.2.1 _ (alGet_mem hh)
+    exact Keep.bind (Keep.rdHolder hhid) fun ho hho => Keep.pure _ ⟨hhid, hho⟩
+
+theorem Keep.readThrough {r : Nat} (sys : Sys) {x : Id} (hx : x.reg = r) (rt : Route) (ent : Nat) (v : Var) (p : Period) :
+    Keep r (readThrough sys x rt ent v p) (fun _ => True) := by
+  unfold Heap.readThrough
+  refine Keep.bind (Keep.routePop hx rt ent) fun pid hpid => ?_
+  refine Keep.bind (by rw [hx]; exact Keep.popGetHolder sys hpid v) fun y hy => ?_
+  obtain ⟨hid, ho⟩ := y
+  exact Keep.holderFind hy.2 p
+
 /-- every public-API call on a simulation of region `r` keeps region `r` closed and tidy -/
 theorem step_keep {r : Nat} (sys : Sys) (fuel : Nat) {x : Id} (hx : x.reg = r) (op : Op) :
     Keep r (step sys fuel x op) (fun _ => True) := by
@@ -730,6 +768,15 @@ theorem step_keep {r : Nat} (sys : Sys) (fuel : Nat) {x : Id} (hx : x.reg = r) (
   | setBad v p =>
     unfold step
     exact Keep.bind (Keep.setInputBad sys hx v p) fun _ _ => Keep.pure _ trivial
+  | calcVia rt ent v p =>
+    unfold step
+    exact Keep.bind (Keep.calcThrough sys fuel hx rt ent v p) fun _ _ => Keep.pure _ trivial
+  | readVia rt ent v p =>
+    unfold step
+    refine Keep.bind (Keep.readThrough sys hx rt ent v p) fun a _ => ?_
+    cases a with
+    | none => exact Keep.pure _ trivial
+    | some a => exact Keep.pure _ trivial
 
 
 end OFCore.Heap
